@@ -78,10 +78,15 @@ class Quaternion(SMUserList):
         if v is None:
             # single argument
             if super().arghandler(s, check=False):
+                if not all(isinstance(x, np.ndarray) and x.shape == (4,) for x in self.data):
+                    raise ValueError('bad argument to Quaternion constructor')
                 return
 
             elif base.isvector(s, 4):
                 self.data = [base.getvector(s)]
+
+            else:
+                raise ValueError('bad argument to Quaternion constructor')
 
         elif base.isscalar(s) and base.isvector(v, 3):
             # Quaternion(s, v)
